@@ -71,10 +71,10 @@ fn gen_mixed(rng: &Rng, pool: &Pool, depth: usize, big: bool) -> (Vec<Ent>, Vec<
         }
     }
     // an eligible file of more than 64 KiB / 1 MiB: comment lines in front of ordinary content
-    if rng.chance(1, 14) {
+    if depth == 0 && rng.chance(1, 8) {
         let n = format!("Huge{}.sol", rng.below(9));
         if used.insert(n.clone()) {
-            let lines = if rng.chance(1, 3) { 30000 } else { 1900 };
+            let lines = if rng.chance(1, 2) { 40000 } else { 1900 }; // about 1.3 MiB or 64 KiB of comment lines
             let mut t = String::new();
             for i in 0..lines {
                 t.push_str(&format!("// filler line {:06} x++; a >= b\n", i));
